@@ -527,17 +527,17 @@ class RTCDtlsTransport(AsyncIOEventEmitter):
         # Start the DTLS handshake.
         self._set_state(State.CONNECTING)
         await self._do_handshake()
-        if self._state == State.FAILED:
+        if self._state != State.CONNECTING:
             return
 
         # Validate the peer identity.
         self._validate_peer_identity(remoteParameters)
-        if self._state == State.FAILED:
+        if self._state != State.CONNECTING:
             return
 
         # Generate keying material.
         self._setup_srtp()
-        if self._state == State.FAILED:
+        if self._state != State.CONNECTING:
             return
 
         # start data pump
